@@ -44,7 +44,7 @@ PROPS = {
     "C07": dict(units=["u4_policy", "u1_estimator", "u19_async_policy", "u8_builder", "u8_builder_async", "u6_store", "u7_glue", "u19_async"], kani=["sketch"], replay=["policy", "estimator", "cache", "async_cache"]),
     "C13": dict(units=["u1_estimator", "u8_builder", "u8_builder_async"], kani=["bbloom", "sketch"], replay=["estimator", "cache"]),
     "C14": dict(units=["u1_estimator"], kani=["bbloom", "sketch"], replay=["estimator"]),
-    "C20": dict(units=["u1_estimator", "u8_builder", "u7_glue", "u19_async", "u8_builder_async", "u6_store"], kani=["bbloom", "ttl", "sketch"], replay=["estimator", "cache", "async_cache"], probes=[("cache", "huge_cost_update_keeps_the_worker_alive")],
+    "C20": dict(units=["u1_estimator", "u8_builder", "u7_glue", "u19_async", "u8_builder_async", "u6_store", "u4_policy", "u19_async_policy", "u5_ttl", "u9_metrics"], kani=["bbloom", "ttl", "sketch"], replay=["estimator", "cache", "async_cache"], probes=[("cache", "huge_cost_update_keeps_the_worker_alive")],
                 guards=[("cache", "extreme_configurations_work"), ("async_cache", "async_extreme_configurations_work")]),
     "C02": dict(units=["u6_store", "u7_glue", "u19_async", "u8_builder", "u8_builder_async", "u10_valueref"], kani=["keys"], replay=["ttl", "async_sweep", "cache", "async_cache"]),
     "C03": dict(units=["u6_store", "u7_glue", "u19_async", "u10_valueref"], kani=["ttl"], replay=["ttl", "async_sweep"]),
@@ -78,6 +78,11 @@ ASSUMPTIONS = {
 IMPLIES = {
     "C16": ("C01", "C07", "C04"),
 }
+
+# The safety obligation of a function under contract (no arithmetic overflow, no index out of bounds, no failed callee precondition,
+# no failed assert: the ways sequential Rust code panics) serves these properties whatever the function's own tags are: C20 is
+# "no operation panics in the caller or kills a background worker", so every function the workers execute counts.
+SAFETY_SERVES = ("C20",)
 
 # Second opinion: for these functions a COMPLETE Kani harness (full input domain of the real function, loop-free or with exact
 # unwinding) decides the same statements as the Verus clauses.  When Verus fails to re-prove a clause of such a function (for
